@@ -345,11 +345,11 @@ RSweep2(r, ok) ==
 
 \* the anchor resolver (stateless, re-created at every start) offers our anchor to the sweeper; the anchor is
 \* never worth sweeping here, so the resolver stays until the arbitrator stops
-RAnchor(again) ==
+RAnchor(again, ok) ==
   /\ alive /\ ZeroFee /\ state \in {"ContractClosed", "WaitingFullResolution"}
   /\ \E r \in Rid : res[r].kind # "none"
   /\ again \/ SReq("anchor", TRUE) \notin sweepReq
-  /\ sweepReq' = sweepReq \cup {SReq("anchor", TRUE)}
+  /\ sweepReq' = sweepReq \cup {SReq("anchor", ok)}
   /\ UNCHANGED <<scen, logVars, extVars, late, vlate, published, spent1, spent2, spentIn, breachDone, userAsked,
                  volVars, histVars>>
 
@@ -575,7 +575,7 @@ Init ==
   /\ pendUser = FALSE /\ pendClose = FALSE /\ closeSent = FALSE
   /\ upstream = [h \in HTLCs |-> {}] /\ ncrash = 0 /\ quirks = {} /\ nw = 0
 
-Next == Main \/ Resolver \/ RAnchor(FALSE) \/ Env \/ Crash \/ Restart \/ RCWipe \/ Finished
+Next == Main \/ Resolver \/ RAnchor(FALSE, TRUE) \/ Env \/ Crash \/ Restart \/ RCWipe \/ Finished
 Spec == Init /\ [][Next]_vars
 
 (* ---- the property ------------------------------------------------------------------------------ *)
